@@ -118,6 +118,10 @@ type FuncCtx struct {
 
 // Extractor caches per-function contexts and grammars.
 type Extractor struct {
+	// StrictOmission: a writer branch on one field of a section that omits the whole section must
+	// imply every omitted field is empty (no 'representative field' presence convention): for formats
+	// whose reader restores every field independently
+	StrictOmission bool
 	P     *core.Program
 	ctxs  map[*types.Func]*FuncCtx
 	cache map[string][]Node
